@@ -217,9 +217,6 @@ impl PatProp for RoundTrip {
         false
     }
     fn prepare(&self, _ctx: &RunCtx, n: &Node, pat: &str, st: &mut Stats) -> Prep<()> {
-        if n.has_bare_backref_cond() {
-            return Prep::Skip("domain:condition-is-bare-backref");
-        }
         if n.any(|x| matches!(x, Flags(..) | SetFlags(..) | Raw(..))) {
             return Prep::Skip("domain:flags");
         }
